@@ -8,21 +8,20 @@
     is still written with [slice] (so a missing guard would show up as
     [None]), and Proof/Slicers.v shows that no input reaches [None].
 
-    - internal/server/response/envelope.go : QuoteOrNIL, parseAddressList,
-      extractHeader, BuildEnvelope  (internal/server/utils/envelope.go is a
-      byte-for-byte twin: ParseAddressList, ExtractHeader, BuildEnvelope)
-    - internal/server/message/fetch.go, processFetchForMessage:
-        the partial range <start.len> after a numeric section,
-        BODY[TEXT]<start.len>, both through slicePartial,
-        HasSignedPartial (signed ranges are answered BAD),
-        the HEADER.FIELDS prefix arithmetic;
-        itemsUpper := asciiUpper(items) — exactly [to_upper] of Base.GoStr,
-        for ALL bytes (no Unicode case mapping is involved any more)
+    - internal/server/response/envelope.go : QuoteOrNIL (a value with CR/LF is
+      a literal, 87e8a19), parseAddressList (net/mail.ParseAddressList first —
+      a parameter [mail_parse] of the model, Go library — then the comma
+      splitting as fallback, bd5007f), extractHeader, BuildEnvelope.
+      internal/server/utils/envelope.go keeps the comma splitting only.
+    - internal/server/message/fetch.go after 4d6a9a4: parseFetchItems /
+      parseFetchItem (the item list is tokenised once), headerFieldNames,
+      splitMessage, the part-number prefix of a numeric section, slicePartial,
+      HasSignedPartial; asciiUpper is exactly [to_upper] of Base.GoStr.
     - internal/server/response/bodystructure.go, BuildBodyStructure:
         the single-part body  rawMsg[headerEnd+sepLen:]
     - fmt.Sscanf(spec, "%d.%d", &a, &b) restricted to ASCII input (library
-      function, modelled because the two partial-range sites feed it
-      attacker-chosen text; tied by the correspondence suite [partial]). *)
+      function, modelled because parseFetchItem feeds it client-chosen text;
+      tied by the correspondence suite [partial]). *)
 From Coq Require Import String Ascii List Bool Arith NArith ZArith.
 From Raven Require Import Base.GoStr.
 Import ListNotations.
@@ -33,13 +32,17 @@ Notation "' x <- e ;; k" := (match e with Some x => k | None => None end)
 
 Definition zlen (s : str) : Z := Z.of_nat (length s).
 
-(** ---- QuoteOrNIL (no slicing; total by construction) ---- *)
+(** ---- QuoteOrNIL (no slicing; total by construction).  A value with CR or
+    LF is sent as a literal {n}CRLF<octets> ---- *)
 Definition dq : ascii := """".
 Definition bsl : ascii := "\".
 Definition quote_or_nil (s : str) : str :=
   match s with
   | [] => S_ "NIL"
-  | _ => dq :: replace_byte (replace_byte s bsl [bsl; bsl]) dq [bsl; dq] ++ [dq]
+  | _ =>
+      if contains_byte s CR || contains_byte s LF
+      then S_ "{" ++ itoa (zlen s) ++ S_ "}" ++ crlf ++ s
+      else dq :: replace_byte (replace_byte s bsl [bsl; bsl]) dq [bsl; dq] ++ [dq]
   end.
 
 (** ---- parseAddressList ---- *)
@@ -86,7 +89,9 @@ Fixpoint addr_structs (elts : list str) : option (list str) :=
       end
   end.
 
-Definition parse_address_list (addresses : str) : option str :=
+(** the comma splitting: all of utils.ParseAddressList, and the fallback of
+    response.parseAddressList for what net/mail rejects *)
+Definition parse_fallback (addresses : str) : option str :=
   match addresses with
   | [] => Some (S_ "NIL")
   | _ =>
@@ -94,6 +99,49 @@ Definition parse_address_list (addresses : str) : option str :=
       match structs with
       | [] => Some (S_ "NIL")
       | _ => Some (S_ "(" ++ join structs (S_ " ") ++ S_ ")")
+      end
+  end.
+
+(** strings.LastIndex(s, c) for one byte *)
+Definition last_index_byte (s : str) (c : ascii) : option nat :=
+  match index_byte (rev s) c with
+  | Some k => Some (length s - 1 - k)
+  | None => None
+  end.
+
+(** one *mail.Address: [name] = mime.QEncoding.Encode("utf-8", a.Name), [addr] = a.Address;
+      if at := strings.LastIndex(a.Address, "@"); at != -1 { mailbox, host = a.Address[:at], a.Address[at+1:] } *)
+Definition render_mail_addr (na : str * str) : option str :=
+  let '(name, addr) := na in
+  ' (mailbox, host) <-
+     (match last_index_byte addr "@" with
+      | Some at_ =>
+          ' m <- slice_to addr (Z.of_nat at_) ;;
+          ' h <- slice_from addr (Z.of_nat at_ + 1) ;;
+          Some (m, h)
+      | None => Some (addr, [])
+      end) ;;
+  Some (S_ "(" ++ quote_or_nil name ++ S_ " NIL " ++ quote_or_nil mailbox ++ S_ " "
+          ++ quote_or_nil host ++ S_ ")").
+
+Fixpoint render_mail_addrs (l : list (str * str)) : option (list str) :=
+  match l with
+  | [] => Some []
+  | a :: r => ' x <- render_mail_addr a ;; ' xs <- render_mail_addrs r ;; Some (x :: xs)
+  end.
+
+(** response.parseAddressList.  [mail_parse] stands for net/mail.ParseAddressList followed by the
+    encoded-word encoding of every display name (Go libraries, not modelled):
+    [Some l] = parsed without error into the (name, address) list l. *)
+Definition parse_address_list (mail_parse : str -> option (list (str * str))) (addresses : str) : option str :=
+  match addresses with
+  | [] => Some (S_ "NIL")
+  | _ =>
+      match mail_parse addresses with
+      | Some (a :: l) =>
+          ' rs <- render_mail_addrs (a :: l) ;;
+          Some (S_ "(" ++ join rs (S_ " ") ++ S_ ")")
+      | _ => parse_fallback addresses
       end
   end.
 
@@ -130,7 +178,8 @@ Definition extract_header (raw name : str) : option str :=
 (** ---- BuildEnvelope ---- *)
 Definition or_default (s d : str) : str := match s with [] => d | _ => s end.
 
-Definition build_envelope (raw : str) : option str :=
+Definition build_envelope (mail_parse : str -> option (list (str * str))) (raw : str) : option str :=
+  let parse_address_list := parse_address_list mail_parse in
   ' date <- extract_header raw (S_ "Date") ;;
   ' subject <- extract_header raw (S_ "Subject") ;;
   ' from <- extract_header raw (S_ "From") ;;
@@ -203,78 +252,116 @@ Definition sscan_d_dot_d (s : str) : option Z * option Z :=
       end
   end.
 
-(** ---- partial range after a numeric section: [rest] is upper[end+1:], the
-    text that follows the closing bracket of BODY[n] ---- *)
-Definition numeric_partial (rest payload : str) : option str :=
-  match rest with
-  | c :: _ =>
-      if Ascii.eqb c "<" then
-        match index_byte rest ">" with
-        | Some cl =>
-            ' spec <- slice rest 1 (Z.of_nat cl) ;;             (* upper[after+1 : after+close] *)
-            match sscan_d_dot_d spec with
-            | (Some st, Some ln) => partial_apply payload st ln
-            | _ => Some payload
-            end
-        | None => Some payload
-        end
-      else Some payload
-  | [] => Some payload
+(** ---- parseFetchItem(tok) ---- *)
+Record fitem : Type := mk_fitem {
+  f_name : str;                 (* item name without section, ASCII upper-cased *)
+  f_has_sec : bool;
+  f_sec : str;                  (* the text between the brackets, as written *)
+  f_partial : option (Z * Z)    (* a well-formed range <start.length> *)
+}.
+
+Definition parse_fetch_item (tok : str) : option fitem :=
+  match index_byte tok "[" with
+  | None => Some (mk_fitem (to_upper tok) false [] None)
+  | Some o =>
+      ' nm <- slice_to tok (Z.of_nat o) ;;                          (* tok[:open] *)
+      ' rest <- slice_from tok (Z.of_nat o + 1) ;;                  (* tok[open+1:] *)
+      match index_byte rest "]" with
+      | None => Some (mk_fitem (to_upper nm) true rest None)
+      | Some e =>
+          ' sec <- slice_to rest (Z.of_nat e) ;;                    (* rest[:end] *)
+          ' rng <- slice_from rest (Z.of_nat e + 1) ;;              (* rest[end+1:] *)
+          ' part <-
+             (if (2 <=? length rng)%nat then
+                ' c0 <- nth_error rng 0 ;;                          (* rng[0] *)
+                ' cl <- nth_error rng (length rng - 1) ;;           (* rng[len(rng)-1] *)
+                if Ascii.eqb c0 "<" && Ascii.eqb cl ">" then
+                  ' spec <- slice rng 1 (zlen rng - 1) ;;           (* rng[1:len(rng)-1] *)
+                  match sscan_d_dot_d spec with
+                  | (Some a, Some b) => if ((0 <=? a) && (0 <=? b))%Z then Some (Some (a, b)) else Some None
+                  | _ => Some None
+                  end
+                else Some None
+              else Some None) ;;
+          Some (mk_fitem (to_upper nm) true sec part)
+      end
   end.
 
-(** ---- BODY[TEXT] / BODY.PEEK[TEXT] with the first "<" ... ">" of the whole
-    (upper-cased) item string; scan errors are ignored, so a partially
-    scanned range keeps the defaults 0 / len(body) ---- *)
-Definition text_partial (items_upper body : str) : option str :=
-  if contains_byte items_upper "<" && contains_byte items_upper ">" then
-    match index_byte items_upper "<", index_byte items_upper ">" with
-    | Some si, Some ei =>
-        if (si <? ei)%nat then
-          ' spec <- slice items_upper (Z.of_nat si + 1) (Z.of_nat ei) ;;
-          let '(oa, ob) := sscan_d_dot_d spec in
-          let st := match oa with Some a => a | None => 0%Z end in
-          let ln := match ob with Some b => b | None => zlen body end in
-          partial_apply body st ln
-        else Some body
-    | _, _ => Some body
-    end
-  else Some body.
+(** ---- parseFetchItems(items): one pass with the cursors i (current byte) and
+    start (start of the current token); flush(end) slices items[start:end] ---- *)
+Definition is_item_sep (c : ascii) : bool := Ascii.eqb c " " || Ascii.eqb c "(" || Ascii.eqb c ")".
 
-(** ---- HEADER.FIELDS: the requested field names.
-    Some None   = the item is not present,
-    Some (Some l) = the upper-cased requested names (defaults when empty) ---- *)
-Definition hf_peek : str := S_ "BODY.PEEK[HEADER.FIELDS".
-Definition hf_body : str := S_ "BODY[HEADER.FIELDS".
+Definition flush_item (items : str) (start e : nat) : option (list fitem) :=
+  if (start <? e)%nat then
+    ' tok <- slice items (Z.of_nat start) (Z.of_nat e) ;;
+    ' it <- parse_fetch_item tok ;;
+    Some [it]
+  else Some [].
+
+Fixpoint pfi_loop (items rest : str) (i start : nat) (in_sec : bool) : option (list fitem) :=
+  match rest with
+  | [] => flush_item items start i                                  (* flush(len(items)) *)
+  | c :: r =>
+      if in_sec then pfi_loop items r (S i) start (negb (Ascii.eqb c "]"))
+      else if Ascii.eqb c "[" then pfi_loop items r (S i) start true
+      else if is_item_sep c then
+        ' f <- flush_item items start i ;;
+        ' t <- pfi_loop items r (S i) (S i) false ;;
+        Some (f ++ t)
+      else pfi_loop items r (S i) start false
+  end.
+
+Definition parse_fetch_items (items : str) : option (list fitem) := pfi_loop items items 0 0 false.
+
+(** ---- headerFieldNames(section) ---- *)
 Definition hf_defaults : list str :=
   map S_ ["FROM"; "TO"; "CC"; "BCC"; "SUBJECT"; "DATE"; "MESSAGE-ID"; "PRIORITY"; "X-PRIORITY";
           "REFERENCES"; "NEWSGROUPS"; "IN-REPLY-TO"; "CONTENT-TYPE"; "REPLY-TO"]%string.
 
-Definition header_fields (items : str) : option (option (list str)) :=
-  let up := to_upper items in
-  if contains up hf_peek || contains up hf_body then
-    let start := match index up hf_peek with Some i => Some i | None => index up hf_body end in
-    match start with
-    | Some st =>
-        let prefix_len := if contains up hf_peek then 25%Z else 20%Z in
-        ' fs <- (if (Z.of_nat st + prefix_len <=? zlen items)%Z           (* start+prefixLen <= len(items) *)
-                then slice_from items (Z.of_nat st + prefix_len)       (* items[start+prefixLen:] *)
-                else Some []) ;;
-        match index_byte fs ")" with
-        | Some cp =>
-            ' fs' <- slice_to fs (Z.of_nat cp) ;;
-            match fields fs' with
-            | [] => Some (Some hf_defaults)
-            | l => Some (Some (map (fun f => to_upper (trim_space f)) l))
-            end
-        | None => Some (Some hf_defaults)
-        end
-    | None => Some (Some hf_defaults)
-    end
-  else Some None.
+Definition header_field_names (section : str) : option (list str) :=
+  match index_byte section "(" with
+  | None => Some hf_defaults
+  | Some o =>
+      ' fs <- slice_from section (Z.of_nat o + 1) ;;                 (* section[open+1:] *)
+      match index_byte fs ")" with
+      | Some cp =>
+          ' fs' <- slice_to fs (Z.of_nat cp) ;;                     (* fieldsStr[:closeParen] *)
+          match fields fs' with
+          | [] => Some hf_defaults
+          | l => Some (map to_upper l)
+          end
+      | None => Some hf_defaults
+      end
+  end.
 
-(** ---- BuildBodyStructure, non-multipart branch: the body ---- *)
+(** ---- splitMessage: header section (with the blank line) and text ---- *)
 Definition crlfcrlf : str := [CR; LF; CR; LF].
 Definition lflf : str := [LF; LF].
+
+Definition split_message (msg : str) : option (str * str) :=
+  match index msg crlfcrlf with
+  | None => Some (msg, [])
+  | Some i =>
+      ' h <- slice_to msg (Z.of_nat i + 4) ;;
+      ' b <- slice_from msg (Z.of_nat i + 4) ;;
+      Some (h, b)
+  end.
+
+(** ---- numeric section: the part number is the section up to ".MIME" (index taken on asciiUpper) ---- *)
+Definition numeric_part_num (section : str) : option str :=
+  match index (to_upper section) (S_ ".MIME") with
+  | Some i => slice_to section (Z.of_nat i)
+  | None => Some section
+  end.
+
+(** addSection / the numeric branch: the item's own range selects the octets *)
+Definition apply_partial (it : fitem) (data : str) : option str :=
+  match f_partial it with
+  | Some (a, b) => partial_apply data a b
+  | None => Some data
+  end.
+
+(** ---- BuildBodyStructure, non-multipart branch: the body ---- *)
 
 Definition bs_single_body (raw : str) : option str :=
   match index raw crlfcrlf with
